@@ -1078,5 +1078,13 @@ def apply_contract(ex, c, finfo, recv, args, kw, e, st, env=None, pnames=None, e
     if rty is not None:
         st.assume(ex.type_pred(rty, res.t, st))
     for cl in c.ensures:
-        st.assume(ex.spec(cl, post, old=pre, result=res))
+        g = ex.spec(cl, post, old=pre, result=res)
+        st.assume(g)
+        if z3.is_implies(g):
+            # modus ponens on the spot when the antecedent is literally among the caller's facts (keeps quantified
+            # consequents usable without asking a solver to discharge a quantified antecedent)
+            from .verify import flatten_and
+            have = {f.get_id() for f in flatten_and(st.pc)}
+            if all(a.get_id() in have for a in flatten_and([g.arg(0)])):
+                st.assume(g.arg(1))
     return res
